@@ -45,6 +45,12 @@ PAIRS = [
     ([{"p": "abc", "q": "de"}, {"r": 1}], [{"s": "abd", "t": "e"}, {"r": 2, "u": 3}]),
     # a list whose last differing element is a mapping with unmatched keys (sub-edit still loose when the matrix completes)
     ([[], {"a": "ab", "c": 1}], ["ab", {"bb": 1, "c": None}]), ([1, {"k": "xyz", "m": [1, 2]}], [{"j": "xyw", "m": [1, 3]}, 2]),
+    # other front ends: the plist wrapper (EditCollection), XML elements (XMLElementEdit), CSV tables
+    (('plist', {"a": [1, 2], "b": {"c": "x"}}), ('plist', {"a": [1, 3], "d": {"c": "y", "e": []}})),
+    (('plist', [1, [2, 3]]), ('plist', {"k": [2, 3]})), (('plist', []), ('plist', "s")),
+    (('xml', ('r', {'a': '1'}, 't', (('b', {}, 'x', ()), ('c', {'k': 'v'}, None, ())))), ('xml', ('r', {'a': '2'}, None, (('b', {}, 'y', ()), ('d', {}, None, ()), ('c', {}, None, ()))))),
+    (('xml', ('a', {}, None, ())), ('xml', ('a', {'x': '1'}, 'txt', (('a', {}, None, ()),)))),
+    (('csv', [['a', 'b'], ['c', '']]), ('csv', [['a', 'x', 'b'], ['c']])),
 ]
 
 
@@ -75,7 +81,13 @@ def _script(edit):
     if isinstance(edit, CompoundEdit):
         return (type(edit).__name__, tuple(_script(e) for e in edit.edits()))
     b = edit.bounds()
-    return (type(edit).__name__, repr(edit.from_node), repr(getattr(edit, 'to_node', None)), b.lower_bound, b.upper_bound)
+    # (structural description, not repr(): PLISTNode has no __repr__ and would show its address)
+    def desc(n):
+        try:
+            return repr(gt.snapshot(n)) if n is not None else 'None'
+        except Exception:
+            return repr(n)
+    return (type(edit).__name__, desc(edit.from_node), desc(getattr(edit, 'to_node', None)), b.lower_bound, b.upper_bound)
 
 
 def _finish(e):
@@ -102,14 +114,14 @@ def _drive(job):
     fails = []
     try:
         _set_quiet(False)
-        ref = _finish(gt.build(a, opt).edits(gt.build(b, opt)))
+        ref = _finish(gt.build_any(a, opt)[0].edits(gt.build_any(b, opt)[0]))
     except Exception as ex:
         return [{'what': f"canonical order raised {type(ex).__name__}: {ex} [{a!r} -> {b!r}]", 'class': f'c05-exception:{type(ex).__name__}',
                  'input': {'a': a, 'b': b, 'opt': opt, 'ops': '', 'quiet': False},
                  'replay': {'kind': 'ops', 'a': a, 'b': b, 'opt': opt, 'ops': '', 'quiet': False}}]
     try:
         _set_quiet(quiet)
-        e = gt.build(a, opt).edits(gt.build(b, opt))
+        e = gt.build_any(a, opt)[0].edits(gt.build_any(b, opt)[0])
         loose_listing = False
         for op in ops:
             if op == 'D':
